@@ -2,6 +2,8 @@
 
 Only `remove` is within reach: `insert` uses the hashbrown entry API, `find` iterator adapter chains.  The primary set
 (`FxHashSet<Arc<Triple>>`, looked up through Borrow<Triple>) is opaque: vstd has no key model for Arc<T>: Borrow<T>."""
+import re
+
 from vlib import Unit
 
 SRC = 'crates/grafeo-core/src/graph/rdf/store.rs'
@@ -184,9 +186,9 @@ def build(repo):
     f.resub('E3', r'(?<![\.\w])(subject_index|predicate_index)\b', r'self.\1')
     f.sub('E3', '= *object_index', '= self.object_index')
     f.R6()
-    f.sub('X1', 't.as_ref() != triple', '&**t != triple', count=None)   # Arc::as_ref == Arc::deref
+    f.resub_opt('X1', re.escape('t.as_ref() != triple'), '&**t != triple')   # Arc::as_ref == Arc::deref (optional: other closure bodies are taken verbatim)
     COMP = ['subject', 'predicate', 'object']
-    f.R10('retain', '&Arc<Triple>', lambda i: 'requires (**t).%s == triple.%s, ensures r == (**t != *triple),' % (COMP[i], COMP[i]))
+    f.R10('retain', '&Arc<Triple>', lambda i: 'requires (**t).%s == triple.%s, ensures /*@rdfstore::RdfStore::remove::closure#retain_%s_bucket_keeps_exactly_the_other_triples*/ r == (**t != *triple),' % (COMP[i], COMP[i], COMP[i]))
     f.requires('wf', 'index_wf(old(self).subject_index@, Comp::S) && index_wf(old(self).predicate_index@, Comp::P)'
                ' && (old(self).object_index is Some ==> index_wf(old(self).object_index->0@, Comp::O))')
     f.ensures('subject_index', 'removed_r ==> index_removed(old(self).subject_index@, final(self).subject_index@, *triple)')
